@@ -506,6 +506,16 @@ impl World {
             let (o, al): (&str, &[&str]) = if ctx == seam::CTX_BUILDER || ctx == seam::CTX_CALLBACK { ("C18.parts", &["C04.twice"]) } else { ("C04.twice", &["C18.parts"]) };
             self.violate_with(o, al, format!("a destructor ran on memory that holds no value (it reads token id {t:#x}: never initialised, or already released)"));
         }
+        // destructors that unwound (injected fault): remember which values
+        for t in tok::take_drop_faulted() {
+            if let Some(oid) = self.tok_owner(t) {
+                if let Some(o) = self.sh.objs.get_mut(&oid) {
+                    o.drop_faulted = true;
+                }
+                self.stats.drop_faults += 1;
+                self.stats.flag("C05.destructor-fault");
+            }
+        }
         let drops = tok::drop_events_since(self.drop_cursor);
         self.drop_cursor = tok::drop_log_len();
         let mut sigd = 0u64;
